@@ -40,6 +40,11 @@ class Fold(ast.NodeTransformer):
         return node
 
 
+    def visit_Constant(self, node):
+        node.kind = None        # the u'' prefix is recorded by CPython's parser but means nothing
+        return node
+
+
 def norm_dump(src, mode="exec"):
     return ast.dump(Fold().visit(ast.parse(src, mode=mode)))
 
@@ -200,11 +205,8 @@ def run(tier, seed):
             continue
         add("stmt", canon + "\n", n, "D1" if d1 else "D2")
     # raw (not canonicalised) programs: spellings that CPython's unparse never produces
-    for raw in ["x = 1_000", "x = f'{b=}'", "x = f'just text here'", "x = f'{ {a: b}}'", "x = 0b1010 + 0o17", "x = 'a' \"b\" 'c'", "x = (\n    1 +\n    2)",
-                "x = a if b else(c)", "x = [1,2 , 3]", "x  =  a  ;  y = b", "x = a<b>c", "x = a   is   not   b", "x = not  a", "def f( a , b = 1 ) : return a",
-                # one-element tuples written with a trailing comma (ast.unparse parenthesises them)
-                "x = a,", "x, = f()", "x += a,", "for i, in y:\n    pass", "x = a[b,]", "def f():\n    return a,", "def f():\n    yield a,",
-                "x = [i for i, in y]", "x = a, b", "x, y = f()", "x = a[b, c]"]:
+    from harness.rawprogs import RAW
+    for raw in RAW:
         add("stmt", raw + "\n", {"c": "Raw", "a": raw, "xs": []}, "raw")
     nharv = 150 if tier == "quick" else 3000
     for fname, src in harvest(rnd, nharv):
